@@ -745,17 +745,19 @@ impl Stringify for Value {
                             right,
                             location,
                         } => {
-                            let split = if let Expression::ToStringWithoutUndefined { .. }
-                            | Expression::LitStr { .. } = &**left
-                            {
-                                true
-                            } else if let Expression::ToStringWithoutUndefined { .. }
-                            | Expression::LitStr { .. } = &**right
-                            {
-                                true
-                            } else {
-                                false
-                            };
+                            // a concatenation of static pieces and `{{ }}` pieces (as the parser builds it):
+                            // any other `+` is an expression of its own and must stay one
+                            fn is_piece(expr: &Expression) -> bool {
+                                match expr {
+                                    Expression::ToStringWithoutUndefined { .. }
+                                    | Expression::LitStr { .. } => true,
+                                    Expression::Plus { left, right, .. } => {
+                                        is_piece(left) && is_piece(right)
+                                    }
+                                    _ => false,
+                                }
+                            }
+                            let split = is_piece(left) && is_piece(right);
                             if split {
                                 split_expression(&left, stringifier, start_location, location)?;
                                 split_expression(&right, stringifier, location, end_location)?;
